@@ -62,3 +62,44 @@ def union_members(idx: SourceIndex, module: str, alias: str) -> list[str]:
 
     go(v)
     return out
+
+
+def error_builders(idx, module_name: str, err_names: set[str]) -> dict[str, str]:
+    """Functions/methods of a module that BUILD (construct and return, do not raise) one of the given diagnostics:
+    name -> diagnostic class.  `raise _already_used(...)` is then a raise of AlreadyUsedError."""
+    out: dict[str, str] = {}
+    for f in idx.iter_funcs((module_name,)):
+        made = {c.func.id for c in ast.walk(f.node) if isinstance(c, ast.Call) and isinstance(c.func, ast.Name) and c.func.id in err_names}
+        if len(made) == 1 and not any(isinstance(x, ast.Raise) for x in ast.walk(f.node)) and any(isinstance(x, ast.Return) and x.value is not None for x in ast.walk(f.node)):
+            out[f.node.name] = next(iter(made))
+    return out
+
+
+def raised_diagnostic(fn: ast.AST, r: ast.Raise, err_names: set[str], builders: dict[str, str]) -> str | None:
+    """Which of the diagnostics does this raise statement raise?  Direct construction, an `err = XError(...)` variable
+    bound before the raise in the same function, or a call of a builder helper (directly or through a variable)."""
+    def of_expr(e: ast.AST | None) -> str | None:
+        if e is None:
+            return None
+        for c in ast.walk(e):
+            if isinstance(c, ast.Call):
+                nm = c.func.id if isinstance(c.func, ast.Name) else (c.func.attr if isinstance(c.func, ast.Attribute) else None)
+                if nm in err_names:
+                    return nm
+                if nm in builders:
+                    return builders[nm]
+        return None
+
+    d = of_expr(r.exc)
+    if d:
+        return d
+    names = {n.id for n in ast.walk(r.exc) if isinstance(n, ast.Name)} if r.exc is not None else set()
+    best = None
+    for a in ast.walk(fn):
+        if isinstance(a, (ast.Assign, ast.AnnAssign)) and getattr(a, "value", None) is not None and a.lineno < r.lineno:
+            tg = a.targets[0] if isinstance(a, ast.Assign) else a.target
+            if isinstance(tg, ast.Name) and tg.id in names:
+                d2 = of_expr(a.value)
+                if d2 and (best is None or a.lineno > best[0]):
+                    best = (a.lineno, d2)
+    return best[1] if best else None
